@@ -535,5 +535,5 @@ Proof.
   assert (R2 : run apply_unset pairs (d1, []) = Ok (d1, [])).
   { clear -S F. revert S F. generalize (@nil (string * value)) as c. induction pairs as [|[p v] t IH]; intros c S F; [reflexivity|].
     inversion S; subst. inversion F; subst. cbn [run]. rewrite unset_noop by assumption. cbn [bind]. apply IH; assumption. }
-  rewrite (apply_with_one _ _ _ _ _ _ _ _ _ Hk Ha PP), R2. cbn [bind fst snd]. eauto.
+  rewrite (apply_with_one _ _ _ _ _ _ _ _ _ Hk Ha PP (apply_with_ok_no_conflict _ _ _ _ _ _ _ _ H)), R2. cbn [bind fst snd]. eauto.
 Qed.
